@@ -488,6 +488,8 @@ func c19Rewrite(c *Ctx, fn *ssa.Function, label string) {
 }
 
 var c19Canaries = []Canary{
+	{Name: "r7-macro-expanded-when-unset", ExpectKey: "C19.R5#macro", Edits: []Edit{{File: "git/gitattr/macro.go", Find: "\n\t\t\tresultLine := &patternLine{l.Pattern(), lineAttrs}\n\t\t\tfor _, attr := range l.Attrs() {\n\t\t\t\tmacros := mp.macros[attr.K]\n\t\t\t\tif attr.V == \"true\" && macros != nil {\n\t\t\t\t\tresultLine.attrs = append(\n\t\t\t\t\t\tresultLine.attrs,\n\t\t\t\t\t\tmacros...,\n\t\t\t\t\t)\n\t\t\t\t} else if attr.Unspecified && macros != nil {\n\t\t\t\t\tfor _, m := range macros {\n\t\t\t\t\t\tresultLine.attrs = append(\n\t\t\t\t\t\t\tresultLine.attrs,\n\t\t\t\t\t\t\t&Attr{\n\t\t\t\t\t\t\t\tK:           m.K,\n\t\t\t\t\t\t\t\tUnspecified: true,\n\t\t\t\t\t\t\t},\n\t\t\t\t\t\t)\n\t\t\t\t\t}\n\t\t\t\t}\n", Repl: "\n\t\t\tresultLine := &patternLine{l.Pattern(), lineAttrs}\n\t\t\tfor _, attr := range l.Attrs() {\n\t\t\t\tif macros := mp.macros[attr.K]; macros != nil {\n\t\t\t\t\tif attr.Unspecified {\n\t\t\t\t\t\tfor _, m := range macros {\n\t\t\t\t\t\t\tresultLine.attrs = append(\n\t\t\t\t\t\t\t\tresultLine.attrs,\n\t\t\t\t\t\t\t\t&Attr{\n\t\t\t\t\t\t\t\t\tK:           m.K,\n\t\t\t\t\t\t\t\t\tUnspecified: true,\n\t\t\t\t\t\t\t\t},\n\t\t\t\t\t\t\t)\n\t\t\t\t\t\t}\n\t\t\t\t\t} else {\n\t\t\t\t\t\tresultLine.attrs = append(\n\t\t\t\t\t\t\tresultLine.attrs,\n\t\t\t\t\t\t\tmacros...,\n\t\t\t\t\t\t)\n\t\t\t\t\t}\n\t\t\t\t}\n"}}},
+	{Name: "r7-work-tree-prefix-only", ExpectKey: "C19.R4#work-tree", Edits: []Edit{{File: "commands/commands.go", Find: "\t// If the current working directory is not within the repository's\n\t// working directory, then let's change directories accordingly.  This\n\t// should only occur if GIT_WORK_TREE is set.\n\tif !(strings.HasPrefix(cwd, workingDir) && (cwd == workingDir || (len(cwd) > len(workingDir) && cwd[len(workingDir)] == os.PathSeparator))) {\n\t\tos.Chdir(workingDir)\n\t}\n}\n", Repl: "\t// If the current working directory is not within the repository's\n\t// working directory, then let's change directories accordingly.  This\n\t// should only occur if GIT_WORK_TREE is set.\n\tif !strings.HasPrefix(cwd, workingDir) {\n\t\tos.Chdir(workingDir)\n\t}\n}\n"}}},
 	{Name: "r6-already-supported-ignores-filter", ExpectKey: "C19.R5#track:already-supported-only-if-tracked", Edits: []Edit{{File: "commands/command_track.go", Find: "\n\t\tif !trackNoModifyAttrsFlag {\n\t\t\tfor _, known := range knownPatterns {\n\t\t\t\tif known.Tracked && // a line that does not assign the LFS filter needs replacing\n\t\t\t\t\tunescapeAttrPattern(known.Path) == path.Join(relpath, pattern) &&\n\t\t\t\t\t((trackLockableFlag && known.Lockable) || // enabling lockable & already lockable (no change)\n\t\t\t\t\t\t(trackNotLockableFlag && !known.Lockable) || // disabling lockable & not lockable (no change)\n\t\t\t\t\t\t(!trackLockableFlag && !trackNotLockableFlag)) { // leave lockable as-is in all cases\n", Repl: "\n\t\tif !trackNoModifyAttrsFlag {\n\t\t\tfor _, known := range knownPatterns {\n\t\t\t\tif unescapeAttrPattern(known.Path) == path.Join(relpath, pattern) &&\n\t\t\t\t\t((trackLockableFlag && known.Lockable) || // enabling lockable & already lockable (no change)\n\t\t\t\t\t\t(trackNotLockableFlag && !known.Lockable) || // disabling lockable & not lockable (no change)\n\t\t\t\t\t\t(!trackLockableFlag && !trackNotLockableFlag)) { // leave lockable as-is in all cases\n"}}},
 	{Name: "r6-track-decision-carried-over", ExpectKey: "C19.R5#track:per-argument-decisions", Edits: []Edit{{File: "commands/command_track.go", Find: "\tchangedAttribLines := make(map[string]string)\n\tvar readOnlyPatterns []string\n\tvar writeablePatterns []string\nArgsLoop:\n\tfor _, unsanitizedPattern := range args {\n\t\tpattern := tools.TrimCurrentPrefix(cleanRootPath(unsanitizedPattern))\n\n", Repl: "\tchangedAttribLines := make(map[string]string)\n\tvar readOnlyPatterns []string\n\tvar writeablePatterns []string\n\tvar alreadySupported bool\n\tfor _, unsanitizedPattern := range args {\n\t\tpattern := tools.TrimCurrentPrefix(cleanRootPath(unsanitizedPattern))\n\n"}, {File: "commands/command_track.go", Find: "\t\t\t\t\t((trackLockableFlag && known.Lockable) || // enabling lockable & already lockable (no change)\n\t\t\t\t\t\t(trackNotLockableFlag && !known.Lockable) || // disabling lockable & not lockable (no change)\n\t\t\t\t\t\t(!trackLockableFlag && !trackNotLockableFlag)) { // leave lockable as-is in all cases\n\t\t\t\t\tPrint(tr.Tr.Get(\"%q already supported\", pattern))\n\t\t\t\t\tcontinue ArgsLoop\n\t\t\t\t}\n\t\t\t}\n\t\t}\n\n\t\tlockableArg := \"\"\n\t\tif trackLockableFlag { // no need to test trackNotLockableFlag, if we got here we're disabling\n", Repl: "\t\t\t\t\t((trackLockableFlag && known.Lockable) || // enabling lockable & already lockable (no change)\n\t\t\t\t\t\t(trackNotLockableFlag && !known.Lockable) || // disabling lockable & not lockable (no change)\n\t\t\t\t\t\t(!trackLockableFlag && !trackNotLockableFlag)) { // leave lockable as-is in all cases\n\t\t\t\t\talreadySupported = true\n\t\t\t\t\tbreak\n\t\t\t\t}\n\t\t\t}\n\t\t}\n\t\tif alreadySupported {\n\t\t\tPrint(tr.Tr.Get(\"%q already supported\", pattern))\n\t\t\tcontinue\n\t\t}\n\n\t\tlockableArg := \"\"\n\t\tif trackLockableFlag { // no need to test trackNotLockableFlag, if we got here we're disabling\n"}}},
 	{Name: "r5-empty-line-ending-kept", ExpectKey: "C19.R4#track:empty-line-ending", Edits: []Edit{{File: "commands/command_track.go", Find: "\tif len(lineEnd) == 0 {\n\t\tlineEnd = gitLineEnding(cfg.Git)\n\t}\n", Repl: ""}}},
